@@ -12,8 +12,7 @@ TRUSTED_BASE = [
     "model) is not proved in Lean: it is tested with EXACT equality in rational arithmetic inside the model (R from the step-down "
     "recursion of the Burg model, inverse by Gauss-Jordan elimination) on dyadic data",
 ]
-PARTIAL = ["defining identity PSD = sampling / (e^H R^-1 e): structural clauses (Hermitian psi, real DFT, returns the Burg model) "
-           "are proved; the Gohberg-Semencul/Musicus identity is tested exactly (rational arithmetic) and by the oracle"]
+PARTIAL = []
 ASSUMPTIONS = ["NFFT >= 2m (no overlap of the two halves of psi); non-degenerate Burg error (rho_k >= 1e-9 rho_0)"]
 RULE = ("real/complex data (noise, tones in noise, integer) of length 8..128 x m in 2..min(N/2,16) x NFFT >= 2m even/odd x "
         "sampling in {1, 2.5, 100}; exact identity cases N <= 16, m <= 5")
